@@ -6,6 +6,7 @@
 -/
 import PicoSVG.Proofs.Arc
 import PicoSVG.Gen.Tables
+import Mathlib.Tactic.LinearCombination
 
 set_option linter.unusedSectionVars false
 namespace PicoSVG.C12
@@ -141,6 +142,36 @@ theorem segment_count (theta piOverTwo twoPi fudge : α) (n : Nat)
     rw [div_le_iff₀ hden] at hhi
     rw [div_le_iff₀ hnpos]
     linarith
+
+/-- C12 (shape of one segment, in the unit-circle frame): with start angle (cs, ss) and end angle (ce, se) on the unit
+    circle and handle length t, the control points `_arc_to_cubic` computes make the cubic leave its start point and
+    reach its end point along the circle's tangents (the handles are perpendicular to the radii) with handles of length |t| -/
+theorem unit_segment_tangent (cs ss ce se t : α) (hs : cs * cs + ss * ss = 1) (he : ce * ce + se * se = 1) :
+    ((cs - t * ss) - cs) * cs + ((ss + t * cs) - ss) * ss = 0
+    ∧ ((ce + t * se) - ce) * ce + ((se + (-t) * ce) - se) * se = 0
+    ∧ ((cs - t * ss) - cs) ^ 2 + ((ss + t * cs) - ss) ^ 2 = t ^ 2
+    ∧ ((ce + t * se) - ce) ^ 2 + ((se + (-t) * ce) - se) ^ 2 = t ^ 2 := by
+  refine ⟨by ring, by ring, ?_, ?_⟩
+  · linear_combination (t ^ 2) * hs
+  · linear_combination (t ^ 2) * he
+
+/-- the model computes exactly these control points, mapped through the ellipse frame -/
+theorem arcSegment_controls (M : ArcMath α) (a : EllArc α) (cp : CenterParam α) (pt : Aff α) (n i : Nat) (c : Cubic α)
+    (h : arcSegment M a cp pt n i = some c) :
+    let st := cp.theta1 + M.ofNat i * cp.thetaArc / M.ofNat n
+    let en := cp.theta1 + M.ofNat (i + 1) * cp.thetaArc / M.ofNat n
+    let t := M.fourThirds * M.tan (M.quarter * (en - st))
+    c.c1 = pt.mapPt ⟨M.cos st - t * M.sin st, M.sin st + t * M.cos st⟩
+    ∧ c.c2 = pt.mapPt ⟨M.cos en + t * M.sin en, M.sin en + (-t) * M.cos en⟩ := by
+  intro st en t
+  unfold arcSegment at h
+  simp only at h
+  split at h
+  · simp at h
+  · injection h with h
+    subst h
+    exact ⟨rfl, rfl⟩
+
 
 end
 
